@@ -250,6 +250,7 @@ func validatePositive(v interface{}, _ string) error {
 	if v == nil {
 		return nil
 	}
+	v = derefValidated(v)
 
 	if d, ok := v.(time.Duration); ok {
 		if d < 0 {
@@ -279,6 +280,7 @@ func validateMin(v interface{}, param string) error {
 	if v == nil {
 		return nil
 	}
+	v = derefValidated(v)
 
 	if d, ok := v.(time.Duration); ok {
 		min, err := param2Duration(param)
@@ -329,6 +331,7 @@ func validateMax(v interface{}, param string) error {
 	if v == nil {
 		return nil
 	}
+	v = derefValidated(v)
 
 	if d, ok := v.(time.Duration); ok {
 		max, err := param2Duration(param)
@@ -378,6 +381,16 @@ func validateMax(v interface{}, param string) error {
 // validateRequired implements the `required` validation tag.
 // If a field is required, it must be present in the config.
 // If field is a string, regex or slice its length must be > 0.
+// derefValidated looks through pointers (and interfaces) to the value to be
+// validated: a pre-filled *int or *time.Duration is validated like an int.
+func derefValidated(v interface{}) interface{} {
+	cv := chaseValue(reflect.ValueOf(v))
+	if !cv.IsValid() || cv.Kind() == reflect.Ptr || cv.Kind() == reflect.Interface || !cv.CanInterface() {
+		return v
+	}
+	return cv.Interface()
+}
+
 func validateRequired(v interface{}, name string) error {
 	if v == nil {
 		return ErrRequired
@@ -403,6 +416,9 @@ func validateNonEmpty(v interface{}, name string) error {
 }
 
 func validateNonEmptyWithAllowNil(v interface{}, _ string, allowNil bool) error {
+	if cv := chaseValue(reflect.ValueOf(v)); cv.IsValid() && cv.Kind() == reflect.String {
+		v = cv.String() // look through pointers to strings
+	}
 	if s, ok := v.(string); ok {
 		if s == "" {
 			return ErrStringEmpty
